@@ -4,38 +4,38 @@
 # - demo passes without the change, fails with it; the existing test suite passes with it
 # - on success the change is stored as /verif/seeded/<prop>-<m>/ (patch.diff, demo.py, meta.json)
 set -u
-P=$1; M=$2
-SRC=/tmp/wt/$P/_mutant
-W=/tmp/cw/$P-$M
-OUT=/verif/seeded/$P-$M
+P=$1; M=$2; BASE=${3:-/tmp/wt}; TAG=${4:-}
+SRC=$BASE/$P/_mutant
+W=/tmp/cw/$P-$TAG$M
+OUT=/verif/seeded/$P-$TAG$M
 mkdir -p /tmp/cw
 git -C /repo worktree add --detach -q $W HEAD || exit 2
 cleanup() { git -C /repo worktree remove --force $W 2>/dev/null; rm -rf $W; }
 trap cleanup EXIT
 cd $W
-PYTHONPATH=$W /venv/bin/python $SRC/demo_$M.py >/tmp/cw/$P-$M.demo0.log 2>&1; d0=$?
-if ! git apply $SRC/$M.diff 2>/tmp/cw/$P-$M.apply.log; then
-  if ! patch -p1 -s < $SRC/$M.diff >>/tmp/cw/$P-$M.apply.log 2>&1; then echo "$P-$M: PATCH DOES NOT APPLY"; exit 1; fi
+PYTHONPATH=$W /venv/bin/python $SRC/demo_$M.py >/tmp/cw/$P-$TAG$M.demo0.log 2>&1; d0=$?
+if ! git apply $SRC/$M.diff 2>/tmp/cw/$P-$TAG$M.apply.log; then
+  if ! patch -p1 -s < $SRC/$M.diff >>/tmp/cw/$P-$TAG$M.apply.log 2>&1; then echo "$P-$TAG$M: PATCH DOES NOT APPLY"; exit 1; fi
 fi
-git diff -- scoda > /tmp/cw/$P-$M.patch
-PYTHONPATH=$W /venv/bin/python $SRC/demo_$M.py >/tmp/cw/$P-$M.demo1.log 2>&1; d1=$?
-PYTHONPATH=$W timeout 3000 /venv/bin/python -m pytest -q -p no:cacheprovider --timeout=900 > /tmp/cw/$P-$M.pytest.log 2>&1; t=$?
-summary=$(tail -1 /tmp/cw/$P-$M.pytest.log)
-echo "$P-$M: demo_without=$d0 demo_with=$d1 pytest_exit=$t ($summary)"
+git diff -- scoda > /tmp/cw/$P-$TAG$M.patch
+PYTHONPATH=$W /venv/bin/python $SRC/demo_$M.py >/tmp/cw/$P-$TAG$M.demo1.log 2>&1; d1=$?
+PYTHONPATH=$W timeout 3000 /venv/bin/python -m pytest -q -p no:cacheprovider --timeout=900 > /tmp/cw/$P-$TAG$M.pytest.log 2>&1; t=$?
+summary=$(tail -1 /tmp/cw/$P-$TAG$M.pytest.log)
+echo "$P-$TAG$M: demo_without=$d0 demo_with=$d1 pytest_exit=$t ($summary)"
 if [ $d0 -eq 0 ] && [ $d1 -ne 0 ] && [ $t -eq 0 ]; then
   mkdir -p $OUT
-  cp /tmp/cw/$P-$M.patch $OUT/patch.diff
+  cp /tmp/cw/$P-$TAG$M.patch $OUT/patch.diff
   cp $SRC/demo_$M.py $OUT/demo.py
   cp $SRC/notes.md $OUT/notes.md
-  python3 - "$P" "$M" "$summary" <<'PY'
+  python3 - "$P" "$M" "$summary" "$OUT" <<'PY'
 import json,sys
 p,m,summary=sys.argv[1:4]
 json.dump({"property":[p],"reverse":False,"origin":f"independent sub-agent given only the text of {p} and a scratch worktree",
   "what":f"see notes.md (change {m})","needs":f"see notes.md (change {m})",
   "ran":f"tools/confirm_mutant.sh {p} {m}: demo exits 0 without the change and non-zero with it; test suite with the change: {summary}"},
-  open(f"/verif/seeded/{p}-{m}/meta.json","w"),indent=1)
+  open(sys.argv[4]+"/meta.json","w"),indent=1)
 PY
-  echo "$P-$M: CONFIRMED -> $OUT"
+  echo "$P-$TAG$M: CONFIRMED -> $OUT"
 else
-  echo "$P-$M: NOT CONFIRMED"
+  echo "$P-$TAG$M: NOT CONFIRMED"
 fi
